@@ -579,6 +579,7 @@ Definition prop_owner (name : bytes) : list string :=
   else if bytes_eqb name (bs "total") then ["C03"%string]
   else if bytes_eqb name (bs "pure") || bytes_eqb name (bs "shared-race-free") || bytes_eqb name (bs "shared-same-results") then ["C13"%string]
   else if bytes_eqb name (bs "http-faithful") then ["C17"%string]
+  else if bytes_eqb name (bs "amount-as-read") then ["C19"%string]
   else if bytes_eqb name (bs "http-no-truncation") then ["C08"%string]
   else if bytes_eqb name (bs "http-contents-own-params") then ["C18"%string]
   else if bytes_eqb name (bs "http-options-agree") || bytes_eqb name (bs "options-routes-agree") then ["C12"%string]
@@ -619,7 +620,20 @@ Definition oracle (pid : bytes) (fn : bytes) (args : list bytes) : option bytes 
   if bytes_eqb kind (bs "prop") then
     (if existsb (pid_is pid) (prop_owner name) then Some (bs "same") else None)
   else if bytes_eqb kind (bs "read") then oracle_read pid args
-  else if bytes_eqb kind (bs "tag") then (if pid_is pid "C03" then Some (bs "no-panic") else None)
+  else if bytes_eqb kind (bs "tag") then
+    (if pid_is pid "C03" then Some (bs "no-panic")
+     else if pid_is pid "C11" && bytes_eqb name (bs "validate") then
+       (* a coded element checked against the tag's own table: a non-empty value outside the published list is rejected *)
+       match take_tag args with
+       | Some (_, d, v, _) =>
+           if existsb (fun e => let '(tn, ei, l) := e in
+                                String.eqb tn (t_name d) &&
+                                negb (bytes_eqb (nth ei (tv_elems v) []) []) && negb (mem_bytes (nth ei (tv_elems v) []) l))
+                      Spec.Faim.tag_code_lists
+           then Some (bs "reject") else None
+       | None => None
+       end
+     else None)
   else
   if bytes_eqb kind (bs "validator") then
     (if pid_is pid "C11" then option_map okrej (spec_validator (string_of_list_byte name) args) else None)
